@@ -14,7 +14,7 @@
 (* The first record of a trace is the table of generator-known facts:      *)
 (*   [ev: "init", classes: version -> class, lines: version -> [path, line]] *)
 (***************************************************************************)
-EXTENDS Naturals, Sequences, FiniteSets, TLC, Json, IOUtils
+EXTENDS Naturals, Sequences, FiniteSets, TLC, Json, IOUtils, SourceMapChain
 
 Recs == ndJsonDeserialize(IOEnv.TRACE)
 VARIABLES l, cache, loaded, tab
@@ -22,11 +22,11 @@ vars == <<l, cache, loaded, tab>>
 
 Verdict(rid, prop, v, detail) == PrintT("VERDICT|" \o rid \o "|" \o prop \o "|" \o v \o "|" \o ToString(detail))
 
-Init == l = 1 /\ cache = <<>> /\ loaded = <<>> /\ tab = [classes |-> <<>>, lines |-> <<>>]
+Init == l = 1 /\ cache = <<>> /\ loaded = <<>> /\ tab = [classes |-> <<>>, lines |-> <<>>, maps |-> <<>>]
 
 Get(f, k) == IF k \in DOMAIN f THEN f[k] ELSE "none"
 
-InitEv(e) == e.ev = "init" /\ tab' = [classes |-> e.classes, lines |-> e.lines]
+InitEv(e) == e.ev = "init" /\ tab' = [classes |-> e.classes, lines |-> e.lines, maps |-> e.maps]
              /\ cache' = <<>> /\ loaded' = <<>>
 
 RewriteEv(e) ==
@@ -62,6 +62,28 @@ ThrowEv(e) ==
         ELSE Verdict(e.rid, "C11", IF tab.classes[v] = "modified" THEN "ok" ELSE "ok0", v)
   /\ UNCHANGED <<cache, loaded, tab>>
 
+(* arbitrary positions of a file, translated through the stack-trace API: each must resolve through the   *)
+(* map of the version this STATE says is cached for the file (the most recent modified rewrite, nothing    *)
+(* after a not-modified one), with the lookup of SourceMapChain (greatest token <= position, global);     *)
+(* a position without a mapped token, and any position of a file without cached map, stays as it is       *)
+ProbeEv(e) ==
+  /\ e.ev = "probe"
+  /\ LET v == IF e.file \in DOMAIN cache THEN cache[e.file] ELSE "none"
+         toks == IF v # "none" /\ v \in DOMAIN tab.maps THEN tab.maps[v] ELSE <<>>
+         Exp(p) == LET r == Lookup(toks, p.l - 1, p.c - 1) IN
+                   IF r.found /\ r.tok.mapped THEN [path |-> r.tok.src, line |-> r.tok.sl + 1, col |-> r.tok.sc + 1]
+                   ELSE [path |-> e.file, line |-> p.l, col |-> p.c]
+         bad == {i \in 1..Len(e.probes) :
+                   LET p == e.probes[i] x == Exp(p) IN p.path # x.path \/ p.line # x.line \/ p.col # x.col}
+     IN IF e.threw THEN Verdict(e.rid, "C11", "reject", "position lookup threw")
+        ELSE IF v # "none" /\ v \notin DOMAIN tab.maps THEN Verdict(e.rid, "C11", "toolerror", <<"no token table for", v>>)
+        ELSE IF bad # {} THEN
+             LET i == CHOOSE i \in bad : \A j \in bad : i <= j IN
+             Verdict(e.rid, "C11", "reject", <<"map in use:", v, "position", e.probes[i].l, e.probes[i].c, "expected", Exp(e.probes[i]),
+                                             "reported", e.probes[i].path, e.probes[i].line, e.probes[i].col>>)
+        ELSE Verdict(e.rid, "C11", IF toks # <<>> THEN "ok" ELSE "ok0", <<v, Len(e.probes)>>)
+  /\ UNCHANGED <<cache, loaded, tab>>
+
 OriginalEv(e) ==
   /\ e.ev = "original"
   /\ IF e.threw THEN Verdict(e.rid, "C11", "reject", "path/line lookup threw")
@@ -71,7 +93,7 @@ OriginalEv(e) ==
   /\ UNCHANGED <<cache, loaded, tab>>
 
 Next == /\ l <= Len(Recs)
-        /\ LET e == Recs[l] IN InitEv(e) \/ RewriteEv(e) \/ ThrowEv(e) \/ OriginalEv(e)
+        /\ LET e == Recs[l] IN InitEv(e) \/ RewriteEv(e) \/ ThrowEv(e) \/ ProbeEv(e) \/ OriginalEv(e)
         /\ l' = l + 1
 Spec == Init /\ [][Next]_vars
 AllConsumed == TLCGet("stats").diameter - 1 = Len(Recs)
